@@ -64,6 +64,33 @@ def _edit_histories(ctx, rng):
                 ctx.case(f"{gg.key(gd)}|{q['X']}|{q['Y']}|hist", res is not None and bool(set(kernel.tags()) & {"id.line4", "id.line6", "id.line7"}))
             if rng.random() < 0.6:
                 gd = gg.edit_inplace(g, gd, rng)
+    # one Identification object kept by the caller: identify it, edit ITS graph in place, identify the same object again
+    from y0.algorithm.identify import Identification, identify
+    from y0.algorithm.identify.utils import Unidentifiable
+
+    for _ in range(ctx.share({"quick": 160, "thorough": 1500}[ctx.tier])):
+        gd = gg.random_admg(rng, rng.randint(3, 5))
+        q = gq.random_query(rng, gd)
+        if not q:
+            continue
+        ident = Identification.from_parts(outcomes={Variable(y) for y in q["Y"]}, treatments={Variable(x) for x in q["X"]},
+                                          graph=gg.to_nx(gd))
+        for _s in range(5):
+            kernel.LOG.reset_case({"graph": gd, "X": q["X"], "Y": q["Y"], "via": "kept-identification"})
+            res = None
+            try:
+                res = identify(ident)
+            except Unidentifiable:
+                pass
+            except Exception:  # noqa: BLE001
+                kernel.count("C01:driver-saw-exception")
+            ctx.case(f"{gg.key(gd)}|{q['X']}|{q['Y']}|kept", res is not None and bool(set(kernel.tags()) & {"id.line4", "id.line6", "id.line7"}))
+            for _e in range(4):
+                gd2 = gg.edit_inplace(ident.graph, gd, rng)
+                if (set(q["X"]) | set(q["Y"])) <= set(gd2["nodes"]):
+                    gd = gd2
+                    break
+                # (edit_inplace never removes nodes, so this cannot happen; kept as a guard)
 
 
 def example_graphs():
